@@ -78,3 +78,23 @@ SPEC_ENTRY = {'title': "Block requests carry the caller's data intact and match 
               ('C14_complete_own_nonvacuous', 'Proofs/BlkProofs.v', 'complete_own_nonvacuous', None),
               ('C14_out_of_order_nonvacuous', 'Proofs/BlkProofs.v', 'out_of_order_nonvacuous', None),
               ('C14_result_nonvacuous', 'Proofs/BlkProofs.v', 'request_blocking_nonvacuous', None)]}
+
+# ---- the monitors evaluated on the IMPLEMENTATION's observations, tied to the statements they stand for (Proofs/BlkMonProofs.v):
+# ---- "meaning" = what a true verdict implies, for any input list; "holds_of_model" = no false alarm on code that behaves like the model
+SPEC_ENTRY['imports'] += [m for m in ['Extract.BlkIO', 'Proofs.BlkMonProofs'] if m not in SPEC_ENTRY['imports']]
+SPEC_ENTRY['theorems'] += [
+  ('C14_monitor_1450_meaning', 'Proofs/BlkMonProofs.v', 'mon1450_meaning', 'a true 1450 verdict on ANY list: the list is [ty; sector; len; 1; n; (len,w)*n; 16 header numbers] with n exact, the header reads (little-endian) as the type and sector asked for with reserved 0, and the parts are per type exactly [16 R; len R|W; 1 W] / [16 R; 1 W] / [16 R; 20 W; 1 W]'),
+  ('C14_monitor_1450_decodes', 'Proofs/BlkMonProofs.v', 'mon1450_decodes', 'every accepted list is a line of the documented layout: consistent count, exactly 16 header numbers, 2 or 3 parts'),
+  ('C14_monitor_1450_header_bytes', 'Proofs/BlkMonProofs.v', 'mon1450_header_bytes', 'for byte values the three little-endian equalities say the header IS the encoding {type u32le, 0 u32le, sector u64le}'),
+  ('C14_monitor_1450_holds_of_model', 'Proofs/BlkMonProofs.v', 'mon1450_holds_of_model', 'every submission of the model (any op, sector, length, reachable state): the line built from the walk of the published chain and the bytes at the first element device address passes 1450'),
+  ('C14_monitor_1450_holds_of_blocking', 'Proofs/BlkMonProofs.v', 'mon1450_holds_of_blocking', 'the same for the request a blocking call submits on an idle queue'),
+  ('C14_monitor_1451_meaning', 'Proofs/BlkMonProofs.v', 'mon1451_meaning', 'a true 1451 verdict: six numbers, flags 1, 0 -> Ok, 1 -> IoError, 2 -> Unsupported, anything else -> some error'),
+  ('C14_monitor_1451_holds_for_every_status', 'Proofs/BlkMonProofs.v', 'mon1451_holds_for_every_status', 'the status conversion of the driver model passes 1451 for every status byte'),
+  ('C14_monitor_1451_holds_of_model', 'Proofs/BlkMonProofs.v', 'mon1451_holds_of_model', 'one completion with anything else outstanding and any device memory passes 1451 (flags tied to the facts complete_own proves)'),
+  ('C14_monitor_1452_meaning', 'Proofs/BlkMonProofs.v', 'mon1452_meaning', 'a true 1452 verdict: capacity = lo + 2^32 hi, readonly iff the device offers bit 5 (which offered features are accepted is the clause of C08 and no longer part of this monitor)'),
+  ('C14_monitor_1452_holds_of_model', 'Proofs/BlkMonProofs.v', 'mon1452_holds_of_model', 'every successful new of the model (any feature word, any config behaviour) passes 1452 with the stable attempt capacity words and the feature word it writes back'),
+  ('C14_monitor_1453_meaning', 'Proofs/BlkMonProofs.v', 'mon1453_meaning', 'a true 1453 verdict: bit 9 accepted -> exactly one request, type FLUSH, result = mapped status; not accepted -> nothing sent and Ok'),
+  ('C14_monitor_1453_holds_of_model', 'Proofs/BlkMonProofs.v', 'mon1453_holds_of_model', 'the flush of the model passes 1453 with and without the feature'),
+  ('C14_monitor_1454_meaning', 'Proofs/BlkMonProofs.v', 'mon1454_meaning', 'a true 1454 verdict: [n; 1] (n not looked at)'),
+  ('C14_monitor_kinds', 'Proofs/BlkMonProofs.v', 'blk_monitor_kinds', 'verdict [1] of kind 1450..1454 = the corresponding checker is true'),
+]
